@@ -159,9 +159,6 @@ func (dec *Decoder) Decode(data []byte) (*DecodeResult, error) {
 }
 
 func (dec *Decoder) decodeWithPool(data []byte) (*DecodeResult, error) {
-	if len(data) == 0 {
-		return nil, nil
-	}
 	res, ok := dec.pool.Get().(*DecodeResult)
 	if !ok {
 		// This will only happen if the decoder was initialized outside of NewDecoder
